@@ -342,14 +342,15 @@ var c07Capture = registerSpace(&e1Space{
 // space "lookup": v, ok := m[k] / v, ok = m[k] declare / rebind v also when the key is absent
 var c07Lookup = registerSpace(&e1Space{
 	Prop: "C07", Name: "lookup",
-	N:    func(th bool) int64 { return 4 * 3 * (c07NFrames + 1) * 3 * 2 },
+	N:    func(th bool) int64 { return 4 * 3 * (c07NFrames + 1) * 3 * 2 * 3 },
 	Gen: func(i int64, th bool) *rj.Program {
-		ix := core.Radix(i, 4, 3, c07NFrames+1, 3, 2)
+		ix := core.Radix(i, 4, 3, c07NFrames+1, 3, 2, 3)
 		b := &c07B{}
 		key := []string{"k", "absent", "absent", "k"}[ix[0]]
 		decl := ix[0] < 2
-		look := &rj.Assign{Decl: decl, Names: []string{"x", "ok"}, Vals: []rj.Expr{&rj.Index{X: rj.V("m"), I: rj.S(key)}}}
-		inner := []rj.Stmt{look, rj.T("ok="), rj.E(rj.V("ok")), rj.T(";")}
+		names := [][]string{{"x", "ok"}, {"_", "ok"}, {"x", "_"}}[ix[5]] // with either side discarded
+		look := &rj.Assign{Decl: decl, Names: names, Vals: []rj.Expr{&rj.Index{X: rj.V("m"), I: rj.S(key)}}}
+		inner := append([]rj.Stmt{look}, c07Read("ok")...)
 		inner = append(inner, c07Read("x")...)
 		switch ix[1] {
 		case 1:
